@@ -178,13 +178,19 @@ PROPS['C03'] = {
                   'the attenuation consequences over that specification. The provenance half (engine) is outside this technique here and is stated as not covered.',
 }
 PROPS['C04'] = {
-    'units': [{'template': 'origin.rs', 'rlimit': 30, 'items': [r'^datalog::origin::']}],
+    'units': [{'template': 'origin.rs', 'rlimit': 30, 'items': [r'^datalog::origin::']},
+              {'template': 'authz.rs', 'rlimit': 60, 'items': [r'^token::authorizer::Authorizer::authorize_inner$']}],
     'proved': 'scope -> trusted origins: from_scopes equals trusted_spec for all inputs (authority, own block and authorizer by default; changed only by `trusting authority`, `previous` or a public key), '
-              'contains is the subset test deciding fact visibility.',
-    'not_covered': ['check / policy composition in authorize_inner and the match-one / match-all semantics of the engine'],
-    'assumptions': _ORIGIN_TRUST,
-    'level_text': 'Deductive proof of the scope computation only (the sentence "Facts are visible ... only when every block that contributed to them is trusted by its scope"): the decision composition and the '
-                  'engine are not decided by this check.',
+              'contains is the subset test deciding fact visibility. Decision composition (Authorizer::authorize_inner, for EVERY outcome of the engine oracles): every query is evaluated under exactly the specification '
+              'trusted set of its position (authorizer checks and policies: authorizer scopes, origin authorizer; authority checks: block 0; checks of block b: block b); on Ok(i) every authorizer, authority and block check '
+              'passes by its per-kind rule (check if: one matching alternative; check all: one alternative matching with no counter-example; reject if: NO alternative matches), i is the first policy with a matching '
+              'alternative and it is an allow policy; NoMatchingPolicy is returned only when no policy matches; Unauthorized{Allow(i) | Deny(i)} only when i is the first matching policy of that kind; nothing but the symbol '
+              'table is modified.',
+    'not_covered': ['the engine itself: match-one / match-all (Rule::find_match, check_match_all) are oracles', 'the exact list and order of the failed checks in the error value',
+                    'builder -> Datalog conversion and symbol interning (oracles: the Datalog object is a function of the builder object)', 'query / query_all scoping (generic signatures not brought through Verus)'],
+    'assumptions': _ORIGIN_TRUST + ['World::query_match / query_match_all return what the oracles m_one / m_all say for (query, origin, trusted set); Check::convert / Rule::convert / scope conversion are functions of their argument',
+                                    'time (Instant) is an uninterpreted input: a Timeout error may be returned at any check', 'Authorizer.blocks, when present, holds at least the authority block (requires blocks_nonempty)'],
+    'level_text': 'Deductive proof of the scope computation and of the decision composition over all oracle outcomes; the engine answering the oracles is not verified.',
 }
 
 PROPS['C16'] = {
@@ -247,6 +253,7 @@ PROPS['C06'] = {
 
 # obligation pattern -> concrete witness search on the real crate (replay/src/main.rs)
 WITNESS = {
+    r'Authorizer::authorize_inner::(loop\d+\.(sound|flag|all_reject|none|done)|ensures\.checks)': 'tools/replay.sh reject_if_alternatives',
     r'token::(unverified::UnverifiedBiscuit|Biscuit)::block::call-pre': 'tools/replay.sh block_index',
     r'UnverifiedBiscuit::append_third_party_with_keypair::call-pre.*unwrap': 'tools/replay.sh unverified_third_party_unwrap',
     r'UnverifiedBiscuit::append_third_party_with_keypair::ensures\.tables': 'tools/replay.sh unverified_third_party_tables',
